@@ -6,12 +6,14 @@ import (
 	"crypto/sha256"
 	"crypto/sha512"
 	"errors"
+	"fmt"
 	"hash"
 	"os"
 	"os/exec"
 	"path/filepath"
 	"strconv"
 	"strings"
+	"sync"
 	"sync/atomic"
 	"testing"
 	"time"
@@ -27,6 +29,20 @@ import (
 func cmdrunnerLike(cmd *exec.Cmd) (runner.Runner, error) {
 	return vp.NewProcRunner(cmd, cmd.Path)
 }
+
+// sessionHash makes one hash object safe to share between clients that verify at the same time: Reset
+// starts a session (takes the lock), Sum ends it. Writes are slow, so that sessions really overlap.
+type sessionHash struct {
+	hash.Hash
+	mu sync.Mutex
+}
+
+func (s *sessionHash) Reset() { s.mu.Lock(); s.Hash.Reset() }
+func (s *sessionHash) Write(b []byte) (int, error) {
+	time.Sleep(20 * time.Millisecond)
+	return s.Hash.Write(b)
+}
+func (s *sessionHash) Sum(b []byte) []byte { defer s.mu.Unlock(); return s.Hash.Sum(b) }
 
 func newHash(n string) hash.Hash {
 	switch n {
@@ -54,6 +70,56 @@ func TestC13(t *testing.T) {
 			os.WriteFile(path, content, 0o755)
 		}
 		var o spec.C13Obs
+		if len(p.Concurrent) > 0 {
+			sc := &plugin.SecureConfig{Checksum: p.Checksum, Hash: &sessionHash{Hash: newHash(p.Hash)}}
+			o.Steps = make([]spec.C13StepObs, len(p.Concurrent))
+			var wg sync.WaitGroup
+			for i, st := range p.Concurrent {
+				body := content
+				if st == "tampered" {
+					body = append(append([]byte(nil), content...), '#', 'x')
+				}
+				pi := filepath.Join(d, fmt.Sprintf("bin%d", i))
+				os.WriteFile(pi, body, 0o755)
+				md := filepath.Join(d, "m"+strconv.Itoa(i))
+				os.MkdirAll(md, 0o755)
+				h := newHash(p.Hash)
+				h.Write(body)
+				o.Steps[i].FileSum = h.Sum(nil)
+				wg.Add(1)
+				go func(i int) {
+					defer wg.Done()
+					time.Sleep(time.Duration(i*5) * time.Millisecond)
+					so := &o.Steps[i]
+					cfg := baseClientConfig()
+					cfg.StartTimeout = 600 * time.Millisecond
+					hostSetFor(cfg, "netrpc")
+					cfg.Cmd = exec.Command(pi)
+					cfg.Cmd.Env = []string{"VERIF_MARKER_DIR=" + md}
+					cfg.SecureConfig = sc
+					cl := plugin.NewClient(cfg)
+					_, err := cl.Start()
+					so.Err = errStr(err)
+					so.IsMismatch = errors.Is(err, plugin.ErrChecksumsDoNotMatch) || (err != nil && strings.Contains(err.Error(), plugin.ErrChecksumsDoNotMatch.Error()))
+					so.ProcessSet = cfg.Cmd.Process != nil
+					for k := 0; k < 300 && so.ProcessSet; k++ {
+						if _, err := os.Stat(filepath.Join(md, "launched")); err == nil {
+							break
+						}
+						time.Sleep(10 * time.Millisecond)
+					}
+					_, merr := os.Stat(filepath.Join(md, "launched"))
+					so.Marker = merr == nil
+					if cfg.Cmd.Process != nil {
+						cfg.Cmd.Process.Kill()
+					}
+					within(20*time.Second, cl.Kill)
+				}(i)
+			}
+			wg.Wait()
+			e.Ret("h", "Start", o)
+			return
+		}
 		if p.ViaRunner {
 			cfg := baseClientConfig()
 			cfg.StartTimeout = 600 * time.Millisecond
